@@ -3,5 +3,7 @@ CONSTANTS
   MaxDepth = 3
   SampleSize = 3000
   NegUnionFlipsEach = FALSE
+  FalsyObjs = {}
+  OperandTruthFilter = FALSE
 SPECIFICATION Spec
 CONSTRAINT Emit
